@@ -40,7 +40,7 @@ impl rustc_driver::Callbacks for Cb {
     let crate_name = tcx.crate_name(rustc_span::def_id::LOCAL_CRATE).to_string();
     let mut root = J::obj();
     root.push(("crate", J::s(crate_name.clone())));
-    root.push(("factdrv_version", J::Int(3)));
+    root.push(("factdrv_version", J::Int(5)));
     // active cfg set
     let mut cfgs: Vec<String> = tcx
       .sess
